@@ -24,9 +24,9 @@ CHECKS = {
     "C05": ("sched", "model_checking", "explicit-state BFS over operation histories with every applier lag on the real cache (sequential driver: each event runs one thread exclusively; canonical white-box state key) + preemption-bounded DFS with a second thread",
             "Every single-client history of Set/SetWithTTL/Del/Wait/Get to the depth bound with every applier lag and write-buffer sizes 1/2/8; the Del-wins oracle is evaluated on every transition.", "§4 C05", SCHED_NOTE),
     "C06": ("sched", "model_checking", "explicit-state BFS over operation histories with every applier lag on the real cache (sequential driver: each event runs one thread exclusively; canonical white-box state key); oracle = reference map + FIFO of pending writes",
-            "Every single-client history to the depth bound with every applier lag; every Get/GetTTL result and the whole map/accounting state must equal the reference map driven by the implementation's own FIFO.", "§4 C06", SCHED_NOTE),
+            "Every single-client history to the depth bound with every applier lag; every Get/GetTTL result and the whole map/accounting state must equal the reference map driven by a FIFO of what the client calls put into the write buffer (items no call accounts for are foreign to the reference).", "§4 C06", SCHED_NOTE),
     "C07": ("sched", "model_checking", "explicit-state BFS over operation histories with every applier lag on the real cache (sequential driver: each event runs one thread exclusively; canonical white-box state key) under a virtual clock + preemption-bounded DFS",
-            "Expiry instants are exact under the virtual clock; every history over TTL values incl. negative, every observation moment.", "§4 C07", SCHED_NOTE),
+            "Expiry instants are exact under the virtual clock; every history over TTL values incl. negative, every observation moment; where everything fits the map must also equal the reference map of C06 (an entry leaves only by Del, overwrite or its own elapsed TTL).", "§4 C07", SCHED_NOTE),
     "C08": ("sched", "model_checking", "stateless model checking of the implementation: preemption-bounded DFS under a controlled scheduler, run twice - normal build (panic/deadlock/livelock oracle) and -race build with scheduler hand-offs invisible to the race detector",
             "Every unordered pair of the 12 API operation kinds, on conflicting keys with resident and pending entries: every schedule within the bound is executed; the race detector judges every explored schedule of the race build.", "§4 C08", SCHED_NOTE + " The Go race detector (ThreadSanitizer happens-before) is trusted."),
     "C09": ("sched", "model_checking", "exhaustive enumeration of (population, costs, frequencies, incoming item, sampling-map order) configurations, each built and decided on the real cache under the sequential driver",
@@ -34,7 +34,7 @@ CHECKS = {
     "C10": ("seq", "model_checking", "explicit-state BFS over operation histories on the real z.Tree (exact page-bytes state key) against a map reference model",
             "Every operation sequence over adversarial key alphabets up to the depth bound, from every reachable state, at the smallest page sizes (splits after 4 keys) and up; long fill/delete histories at larger page sizes; 120 (thorough 400) shuffled start states; when an observation is seen to change the tree, every key becomes the last read before and the first read after every operation.", "§4 C10", SEQ_NOTE),
     "C11": ("seq", "model_checking", "explicit-state BFS over operation histories on the real z.Buffer against a byte-slice reference model",
-            "All operation histories up to the depth bound from every reachable state, for every buffer configuration, plus exhaustive sort families around the 1024-slice chunking.", "§4 C11", SEQ_NOTE),
+            "All operation histories up to the depth bound from every reachable state, for every buffer configuration, plus exhaustive sort families around the 1024-slice chunking and Reset / refill histories past 64 KiB on every buffer kind.", "§4 C11", SEQ_NOTE),
     "C12": ("sched", "model_checking", "stateless model checking of the implementation: DFS over all schedules (preemption bound 8 quick / unbounded thorough) with every atomic operation on the packed index and the mutex as schedule points; normal + race-detector builds; plus all sequential histories to a depth bound",
             "Disjointness, stability, exact sizes, alignment/zeroing and Copy equality are checked on every explored schedule of 2-4 allocating threads with sizes straddling chunk boundaries.", "§4 C12", SCHED_NOTE),
     "C13": ("sched", "model_checking", "explicit-state BFS over operation histories with every applier lag on the real cache (sequential driver: each event runs one thread exclusively; canonical white-box state key) + preemption-bounded DFS of two writers",
@@ -42,7 +42,7 @@ CHECKS = {
     "C14": ("sched", "model_checking", "preemption-bounded DFS of sweep vs client re-writes (sweep's lock acquisitions are schedule points) + explicit-state BFS over operation histories with every applier lag on the real cache (sequential driver: each event runs one thread exclusively; canonical white-box state key) for applier stalls",
             "Safety and exactly-once of expiry processing on every explored schedule; bounded liveness on every bounded history. The defects it found (F4, F5, F6, F8) are repaired by fix: commits and recorded as fixed entries.", "§4 C14", SCHED_NOTE),
     "C15": ("sched", "model_checking", "explicit-state BFS over histories of two client threads with every applier lag on the real cache (sequential driver), Close / Clear as ordinary repeatable events, probes after each",
-            "Every combination of resident entries, buffered new items / overwrites / tombstones, pending Wait markers (a second client blocked in Wait) and TTL entries precedes the Close/Clear; inertness / freshness is checked by probes and white-box state, thread termination from the scheduler's thread table.", "§4 C15", SCHED_NOTE),
+            "Every combination of resident entries, buffered new items / overwrites / tombstones, pending Wait markers (a second client blocked in Wait) and TTL entries precedes the Close/Clear; inertness / freshness is checked by probes (new write, TTL overwrite of a plain entry, expiry of a TTL entry by the following sweeps, metrics as on a new cache) and white-box state, thread termination from the scheduler's thread table.", "§4 C15", SCHED_NOTE),
     "C16": ("seq", "model_checking", "explicit-state BFS over histories with a Reopen event enabled in every state, on real file-backed trees; differential oracle before/after reopen",
             "Every clean-close point of every bounded history (including after DeleteBelow recycled pages) is closed, reopened and compared; the search continues from the reopened tree under the C10 oracle, and a reopened tree must take recycled pages before it moves the allocation frontier.", "§4 C16", SEQ_NOTE),
     "C17": ("sched", "model_checking", "explicit-state BFS over operation histories with every applier lag on the real cache (sequential driver: each event runs one thread exclusively; canonical white-box state key) + preemption-bounded DFS",
